@@ -4,7 +4,7 @@ use riscv_analysis::parser::{LexError, Lexer, Token, TokenType};
 use riscv_analysis::passes::DiagnosticLocation;
 use std::panic::{catch_unwind, AssertUnwindSafe};
 
-const ALPHA: [char; 15] = ['a', '0', ' ', ',', '\n', '\r', '.', '#', '"', '\'', '\\', '(', ':', '@', 'u'];
+const ALPHA: [char; 18] = ['a', '0', ' ', ',', '\n', '\r', '.', '#', '"', '\'', '\\', '(', ':', '@', 'u', '\u{c}', '\u{a0}', '\u{3bb}'];
 
 fn is_ws(c: char) -> bool { c == ' ' || c == '\t' || c == '\r' || c == ',' }
 fn line_of(s: &[char], p: usize) -> usize { s[..p].iter().filter(|c| **c == '\n').count() }
@@ -109,7 +109,10 @@ pub fn search(v: &serde_json::Value) -> i32 {
     }
     // a few longer, realistic lines
     for src in ["add t0, t1\n  sub t0\n", "\nadd t0", ".asciz \"hi\"\nadd t0", "\"s\"(x)", "a\r\nb", "a @ b\nc", "lw a0, 4(sp)", ". x", "x.",
-                "'a", "\"ab", "lbl: li a0, 'x' # c\n\n\tret", "\"\\u03bb\" 'q'", ".string \"a\\qb\" x\ny"] {
+                "'a", "\"ab", "lbl: li a0, 'x' # c\n\n\tret", "\"\\u03bb\" 'q'", ".string \"a\\qb\" x\ny",
+                // escapes cut short by the end of the text, and white space that is not a lexer blank
+                "\"\\u03b", "\"\\u03", "\"\\u0", "\"\\u", "'\\u03'", "'\\u03", "\"\\uzzz", "\"\\", "'\\", "\"a\\\nb c\nd",
+                "main:\n    li a0, 1\n\u{c}\nfoo:\n    ret\n", "a\u{2028}b\nc", "\u{3000}x", "li t0, '\u{3bb}'\nli t1, 'é'"] {
         n += 1;
         if let Some(why) = check_source(src) { println!("witness: source {src:?}: {why}"); return 1; }
     }
